@@ -21,6 +21,7 @@
 # SPDX-License-Identifier: AGPL-3.0-only
 
 import itertools
+import re
 from .yp_prolog_visitor import *
 from .errors import CompilerLimitError
 
@@ -159,7 +160,9 @@ class YPPrologCompiler:
         self.cut_if_counter = 0
     def _debug(self,*args):
         if self.context.debug_generator:
-            self.context.outf.write('# ' + " ".join([str(a) for a in args]) + '\n')
+            # every line of the message is a comment line (atoms may contain line breaks)
+            msg = " ".join([str(a) for a in args])
+            self.context.outf.write('# ' + '\n# '.join(re.split('\r\n|\r|\n', msg)) + '\n')
     def push_bound_vars(self,variables):
         self.bound_vars.append(self.bound_vars[-1] + variables)
     def pop_bound_vars(self):
